@@ -298,13 +298,20 @@ def _rank(c):
 
 
 def string_candidates(s):
-    """strictly simpler strings in a fixed order: (1) delete a block (long blocks first), (2) replace a block of 2-5
-    characters by 'a', (3) replace one character by a simpler one (order _CHAR_ORDER).  Every candidate is shorter
+    """strictly simpler strings in a fixed order: (1) delete a block (long blocks first), (1b) delete a pair of
+    brackets, (2) replace a block of 2-5 characters by 'a', (3) replace one character by a simpler one (order
+    _CHAR_ORDER).  Every candidate is shorter
     or has the same length and a lexicographically smaller rank vector, so shrinking terminates."""
     n = len(s)
     for ln in range(n - 1, 0, -1):
         for i in range(0, n - ln + 1):
             yield s[:i] + s[i + ln:]
+    for i in range(n):  # drop a pair of brackets, keep what is inside
+        if s[i] in "([":
+            close = ")" if s[i] == "(" else "]"
+            for j in range(i + 1, n):
+                if s[j] == close:
+                    yield s[:i] + s[i + 1:j] + s[j + 1:]
     for ln in range(5, 1, -1):
         for i in range(0, n - ln + 1):
             yield s[:i] + "a" + s[i + ln:]
@@ -615,7 +622,7 @@ class C17(Prop):
                  "operator table x operand kinds x contexts: parse, print, parse, compared by an independent "
                  "structural walker; (c) every term built with the documented constructors of problog.logic")
     rule = ("(a) all strings of <= 5 (quick) / 6 (thorough) tokens over the 26-token alphabet, all strings of <= 3 / 4 "
-            "printable ASCII characters, all strings of <= 4 / 5 characters over a 38-character sub-alphabet (one "
+            "printable ASCII characters, all strings of <= 4 / 5 characters over a 37-character sub-alphabet (one "
             "representative per tokenizer action), all strings of <= 6 / 7 tokens over the 9 aggregate-syntax tokens "
             "{a,X,<,>,.,(,),\",\",:-}; a string is non-trivial when it parses to >= 1 clause.  "
             "(b) depth 1: 57 infix + 9 prefix operators x 18 operand kinds (x both source forms) x 13 contexts; "
